@@ -211,6 +211,45 @@ def r10_2(ctx, rc):
                 sg.nodes[w[0]].where(), sg.describe_path(w), key=key)
         else:
             rc.ok({'handler_step': name}, key=key)
+    # the failed output disappears before its record is published: once
+    # the record is finished other threads consult the real file system for
+    # the path, and must not find the half-written file
+    fin = C + '.finish_building_file'
+    def lexically_in_handler(call):
+        n = call
+        while n is not None:
+            n = ctx.prog.parent(n)
+            if isinstance(n, ast.ExceptHandler):
+                return True
+            if isinstance(n, ast.FunctionDef):
+                return False
+        return False
+
+    def in_failure_handler(x):
+        if x.call is not None and lexically_in_handler(x.call):
+            return True
+        fr = x.frame
+        while fr is not None and fr.site is not None:
+            if fr.site.call is not None and lexically_in_handler(
+                    fr.site.call):
+                return True
+            fr = fr.parent
+        return False
+    w = Q.first_unguarded(
+        sg, claim, removes_own,
+        lambda x: Q.is_call(x, fin) and in_failure_handler(x))
+    key = '%s: failed target removed before its record is finished' % \
+        F.qualname
+    if w:
+        rc.violation(
+            'failure-order | %s | remove before finish' % F.qualname,
+            'in the failure handler the record is finished (published) '
+            'while the failed output is still on disk: another thread that '
+            'asks about the path in this window sees a file no sequential '
+            'run ever shows', sg.nodes[w[-1]].where(), sg.describe_path(w),
+            key=key)
+    else:
+        rc.ok({'order': 'remove target, then finish_building_file'}, key=key)
     # sanitising of the return value is inside the protected region: its
     # failure goes through the same handler (covered by the queries above,
     # which start at the claim); make the coverage explicit
